@@ -12,13 +12,14 @@ EXTENDS Naturals, Integers, Sequences, FiniteSets, TLC, Json, IOUtils
 
 Rec == ndJsonDeserialize(IOEnv.TRACE)
 
-VARIABLES l, scn, kind, codec, transit, written, nread, wend, bad15, bad16, bad07, liveinfo
-tvars == <<l, scn, kind, codec, transit, written, nread, wend, bad15, bad16, bad07, liveinfo>>
+VARIABLES l, scn, kind, codec, transit, written, nread, wend, bad15, bad16, bad07, liveinfo, age
+tvars == <<l, scn, kind, codec, transit, written, nread, wend, bad15, bad16, bad07, liveinfo, age>>
 
 NoLive == [malformed |-> FALSE, softbad |-> FALSE, probeYield |-> FALSE, err |-> FALSE]
 TInit == /\ l = 1 /\ scn = 0 /\ kind = "" /\ codec = "" /\ transit = 0 /\ written = <<>> /\ nread = 0 /\ wend = FALSE
-         /\ bad15 = {} /\ bad16 = {} /\ bad07 = {} /\ liveinfo = NoLive
+         /\ bad15 = {} /\ bad16 = {} /\ bad07 = {} /\ liveinfo = NoLive /\ age = 0
 
+Panicked == bad16 \cap {"panic", "Sig_TimerRangeExceededOnLongIdleConnection"} # {}
 Portable == {"NotFound", "PermissionDenied", "ConnectionRefused", "ConnectionReset", "ConnectionAborted",
              "NotConnected", "AddrInUse", "AddrNotAvailable", "BrokenPipe", "AlreadyExists", "WouldBlock",
              "InvalidInput", "InvalidData", "TimedOut", "WriteZero", "Interrupted", "Other", "UnexpectedEof"}
@@ -38,11 +39,12 @@ SameItem(w, r) ==
 Step ==
   /\ l <= Len(Rec)
   /\ l' = l + 1
+  /\ (Rec[l].ev # "Reset" => age' = age)
   /\ LET e == Rec[l] IN
      /\ scn' = e.scn
      /\ CASE e.ev = "Reset" ->
                /\ kind' = e.kind /\ codec' = e.codec /\ transit' = e.transit /\ written' = <<>> /\ nread' = 0 /\ wend' = FALSE
-               /\ bad15' = {} /\ bad16' = {} /\ bad07' = {} /\ liveinfo' = NoLive
+               /\ bad15' = {} /\ bad16' = {} /\ bad07' = {} /\ liveinfo' = NoLive /\ age' = e.age_days
           [] e.ev = "Written" ->
                /\ written' = Append(written, [d |-> e.d, t |-> e.t])
                /\ UNCHANGED <<kind, codec, transit, nread, wend, bad15, bad16, bad07, liveinfo>>
@@ -83,7 +85,7 @@ Step ==
                /\ bad15' = IF kind = "omit" THEN bad15 \cup {"message with omitted optional field rejected"} ELSE bad15
                /\ UNCHANGED <<kind, codec, transit, written, nread, wend, bad16, bad07, liveinfo>>
           [] e.ev = "Panic" ->
-               /\ bad16' = bad16 \cup {"panic"}
+               /\ bad16' = bad16 \cup {IF age >= 430 THEN "Sig_TimerRangeExceededOnLongIdleConnection" ELSE "panic"}
                /\ UNCHANGED <<kind, codec, transit, written, nread, wend, bad15, bad07, liveinfo>>
           [] e.ev = "LiveFeed" ->
                /\ liveinfo' = [liveinfo EXCEPT !.malformed = @ \/ e.item = "garbage",
@@ -97,10 +99,10 @@ Step ==
                /\ UNCHANGED <<kind, codec, transit, written, nread, wend, bad15, bad16, bad07>>
           [] e.ev = "LiveDone" ->
                /\ bad16' = bad16
-                    \cup (IF ~liveinfo.malformed /\ ~liveinfo.softbad /\ "panic" \notin bad16
+                    \cup (IF ~liveinfo.malformed /\ ~liveinfo.softbad /\ ~Panicked
                              /\ ~(liveinfo.probeYield /\ e.probe_answered /\ ~e.ended)
                            THEN {"well-formed odd traffic stopped the connection from serving a following request"} ELSE {})
-                    \cup (IF liveinfo.malformed /\ "panic" \notin bad16 /\ ~(liveinfo.err /\ e.ended)
+                    \cup (IF liveinfo.malformed /\ ~Panicked /\ ~(liveinfo.err /\ e.ended)
                            THEN {"malformed frame did not end the connection with an error"} ELSE {})
                /\ UNCHANGED <<kind, codec, transit, written, nread, wend, bad15, bad07, liveinfo>>
           [] e.ev = "ClientDl" ->
